@@ -7,7 +7,9 @@
      Cmd        a command that fetches no memory (RATS, SELECT, polling, GET_VERSION, sector select ...)
      Read(u)    fetch unit u - only a unit not yet asked in this call (Type 1/2/3: the memory readers
                 cache; Type 4: READ BINARY offsets strictly increase between two SELECTs, so an empty
-                answer can not be re-requested for ever)
+                answer can not be re-requested for ever); once a command of the call got no proper answer
+                (silence, or an answer that is not what the command implies) asking again is legitimate
+                and only the budget bounds the call
      Retry      the same command again, only after an unanswered one
      Sense      a new activation of the tag
      Finish(r)  r = None, or [off, len, cap] inside the declared data area with len <= cap
@@ -26,18 +28,20 @@ VARIABLES call,         \* "idle" or the running call
           asked,        \* units fetched in this call
           minoff,       \* Type 4: smallest READ BINARY offset still allowed for the selected file
           ncmd, nretry,
-          unanswered,   \* the last command got no answer
+          unanswered,   \* the last command got no (proper) answer
+          dirty,        \* some command of this call got no proper answer: asking again is then legitimate
           fin           \* last result
-mvars == <<call, asked, minoff, ncmd, nretry, unanswered, fin>>
+mvars == <<call, asked, minoff, ncmd, nretry, unanswered, dirty, fin>>
 
 NoneRes == [none |-> TRUE, off |-> 0, len |-> 0, cap |-> 0]
-MInit == call = "idle" /\ asked = {} /\ minoff = 0 /\ ncmd = 0 /\ nretry = 0 /\ unanswered = FALSE /\ fin = NoneRes
+MInit == call = "idle" /\ asked = {} /\ minoff = 0 /\ ncmd = 0 /\ nretry = 0 /\ unanswered = FALSE /\ dirty = FALSE
+         /\ fin = NoneRes
 
 Begin(c) == /\ call = "idle"
-            /\ call' = c /\ asked' = {} /\ minoff' = 0 /\ ncmd' = 0 /\ nretry' = 0 /\ unanswered' = FALSE
+            /\ call' = c /\ asked' = {} /\ minoff' = 0 /\ ncmd' = 0 /\ nretry' = 0 /\ unanswered' = FALSE /\ dirty' = FALSE
             /\ UNCHANGED fin
 
-Count(ok, bud) == ncmd < bud /\ ncmd' = ncmd + 1 /\ unanswered' = ~ok
+Count(ok, bud) == ncmd < bud /\ ncmd' = ncmd + 1 /\ unanswered' = ~ok /\ dirty' = (dirty \/ ~ok)
 
 Cmd(ok, bud) == /\ call # "idle" /\ Count(ok, bud) /\ nretry' = 0
            /\ UNCHANGED <<call, asked, minoff, fin>>
@@ -48,13 +52,13 @@ Select(ok, bud) == /\ call # "idle" /\ Count(ok, bud) /\ nretry' = 0 /\ minoff' 
 
 \* Type 1/2/3 memory unit
 Read(u, ok, bud) == /\ call # "idle" /\ Count(ok, bud) /\ nretry' = 0
-               /\ u \notin asked
+               /\ (u \notin asked \/ dirty)
                /\ asked' = asked \cup {u} /\ minoff' = 0
                /\ UNCHANGED <<call, fin>>
 
 \* Type 4 READ BINARY at offset o of the selected file
 ReadAt(o, ok, bud) == /\ call # "idle" /\ Count(ok, bud) /\ nretry' = 0
-                 /\ o >= minoff
+                 /\ (o >= minoff \/ dirty)
                  /\ minoff' = o + 1
                  /\ UNCHANGED <<call, asked, fin>>
 
@@ -68,6 +72,6 @@ InArea(r, lo, hi) == r.off >= lo /\ r.off + r.len <= hi /\ r.len <= r.cap /\ r.c
 Finish(r, lo, hi) == /\ call # "idle"
              /\ (r.none \/ InArea(r, lo, hi))
              /\ fin' = r /\ call' = "idle"
-             /\ UNCHANGED <<asked, minoff, ncmd, nretry, unanswered>>
+             /\ UNCHANGED <<asked, minoff, ncmd, nretry, unanswered, dirty>>
 
 =============================================================================
